@@ -14,14 +14,14 @@ import (
 // ---------------------------------------------------------------------------
 
 type callTarget struct {
-	kind     string // builtin, contract, inline, havoc
-	fn       *ssa.Function
-	con      *Contract
-	name     string
-	binds    []ssa.Value
-	sig      *types.Signature
-	inPkg    bool
-	recvArg  bool // args[0] is the receiver
+	kind    string // builtin, contract, inline, havoc
+	fn      *ssa.Function
+	con     *Contract
+	name    string
+	binds   []ssa.Value
+	sig     *types.Signature
+	inPkg   bool
+	recvArg bool // args[0] is the receiver
 }
 
 func externName(fn *ssa.Function) string {
